@@ -194,3 +194,150 @@ def normalise_module(tree, relpath):
             if m:
                 out[q] = m
     return out
+
+
+# --------------------------------------------------------------------------- private names
+# A consistent rename of a *private* attribute or method of the package (leading underscore,
+# not a dunder) is behaviour preserving.  Rules name such members (`_states_traversed`,
+# `_do_reductions`, ...), so before analysis a package-wide rename is undone: a private name
+# that exists only in the analysed tree is mapped to the private name that exists only in the
+# reference copy when the aligned code uses the one exactly where the reference uses the other.
+
+
+def _is_private(name):
+    return isinstance(name, str) and name.startswith("_") and not (name.startswith("__") and name.endswith("__"))
+
+
+def _private_names(tree):
+    out = set()
+    for n in ast.walk(tree):
+        if isinstance(n, ast.Attribute) and _is_private(n.attr):
+            out.add(n.attr)
+        elif isinstance(n, (ast.FunctionDef, ast.AsyncFunctionDef)) and _is_private(n.name):
+            out.add(n.name)
+    return out
+
+
+def _ptokens(fn):
+    """token stream with private member names masked: [(key, private name or None)]"""
+    out = []
+    todo = [fn]
+    while todo:
+        n = todo.pop()
+        if isinstance(n, ast.Attribute):
+            out.append((("Attribute", "<p>" if _is_private(n.attr) else n.attr), n.attr if _is_private(n.attr) else None))
+        elif isinstance(n, ast.Name):
+            out.append((("Name",), None))
+        elif isinstance(n, ast.Constant):
+            out.append((("Constant", repr(n.value)[:24]), None))
+        elif isinstance(n, (ast.FunctionDef, ast.AsyncFunctionDef)):
+            out.append((("def",), None))
+        elif isinstance(n, ast.keyword):
+            out.append((("keyword", n.arg), None))
+        else:
+            out.append(((type(n).__name__,), None))
+        todo.extend(reversed(list(ast.iter_child_nodes(n))))
+    return out
+
+
+def private_name_map(cur_trees, ref_trees):
+    """{name in the analysed tree: name in the reference} for consistently renamed private members.
+    cur_trees / ref_trees: {relpath: ast.Module}"""
+    pc = set().union(*[_private_names(t) for t in cur_trees.values()]) if cur_trees else set()
+    pr = set().union(*[_private_names(t) for t in ref_trees.values()]) if ref_trees else set()
+    cur_only, ref_only = pc - pr, pr - pc
+    if not cur_only or not ref_only:
+        return {}
+    votes = {}
+    pairs = []
+    for rel, ct in cur_trees.items():
+        rt = ref_trees.get(rel)
+        if rt is None:
+            continue
+        cf, rf = _funcs(ct), _funcs(rt)
+        for q in cf:
+            if q in rf:
+                pairs.append((cf[q], rf[q]))
+        # renamed defs: pair the leftovers of each class / module by similarity
+        new = [q for q in cf if q not in rf and _is_private(q.split(".")[-1]) and q.split(".")[-1] in cur_only]
+        gone = [q for q in rf if q not in cf and _is_private(q.split(".")[-1]) and q.split(".")[-1] in ref_only]
+        cand = []
+        for a in new:
+            ka = [k for k, _ in _ptokens(cf[a])]
+            for b in gone:
+                if a.rsplit(".", 1)[0] != b.rsplit(".", 1)[0] and "." in a and "." in b:
+                    continue
+                kb = [k for k, _ in _ptokens(rf[b])]
+                if not (0.5 <= len(ka) / max(len(kb), 1) <= 2):
+                    continue
+                ratio = difflib.SequenceMatcher(None, ka, kb, autojunk=False).ratio()
+                if ratio >= 0.8:
+                    cand.append((ratio, a, b))
+        used_a, used_b = set(), set()
+        for ratio, a, b in sorted(cand, reverse=True):
+            if a in used_a or b in used_b:
+                continue
+            used_a.add(a)
+            used_b.add(b)
+            na, nb = a.split(".")[-1], b.split(".")[-1]
+            votes.setdefault(na, {}).setdefault(nb, 0)
+            votes[na][nb] += 5
+            pairs.append((cf[a], rf[b]))
+    for c, r in pairs:
+        if ast.dump(c) == ast.dump(r):
+            continue
+        tc, tr = _ptokens(c), _ptokens(r)
+        sm = difflib.SequenceMatcher(None, [k for k, _ in tc], [k for k, _ in tr], autojunk=False)
+        for a, b, size in sm.get_matching_blocks():
+            for i in range(size):
+                nc, nr = tc[a + i][1], tr[b + i][1]
+                if nc and nr and nc != nr and nc in cur_only and nr in ref_only:
+                    votes.setdefault(nc, {}).setdefault(nr, 0)
+                    votes[nc][nr] += 1
+    mapping = {}
+    for name, v in votes.items():
+        best, n = max(v.items(), key=lambda kv: kv[1])
+        if n * 10 >= sum(v.values()) * 8:
+            mapping[name] = best
+    targets = {}
+    for k, t in mapping.items():
+        targets.setdefault(t, []).append(k)
+    for t, ks in targets.items():
+        if len(ks) > 1:
+            for k in ks:
+                mapping.pop(k, None)
+    return mapping
+
+
+def apply_private_map(tree, mapping):
+    if not mapping:
+        return
+    for n in ast.walk(tree):
+        if isinstance(n, ast.Attribute) and n.attr in mapping:
+            n.attr = mapping[n.attr]
+        elif isinstance(n, (ast.FunctionDef, ast.AsyncFunctionDef)) and n.name in mapping:
+            n.name = mapping[n.name]
+        elif (
+            isinstance(n, ast.Call) and isinstance(n.func, ast.Name) and n.func.id in ("hasattr", "getattr", "setattr", "delattr")
+            and len(n.args) >= 2 and isinstance(n.args[1], ast.Constant) and n.args[1].value in mapping
+        ):
+            n.args[1].value = mapping[n.args[1].value]
+        elif isinstance(n, ast.Assign) and any(isinstance(t, ast.Name) and t.id == "__slots__" for t in n.targets):
+            for c in ast.walk(n.value):
+                if isinstance(c, ast.Constant) and c.value in mapping:
+                    c.value = mapping[c.value]
+
+
+def load_reference_trees():
+    out = {}
+    for root, _, files in os.walk(os.path.join(REF_DIR, "parglare")):
+        for fn in files:
+            if fn.endswith(".py"):
+                p = os.path.join(root, fn)
+                rel = os.path.relpath(p, REF_DIR)
+                try:
+                    with open(p, encoding="utf-8") as f:
+                        out[rel] = ast.parse(f.read())
+                except SyntaxError:
+                    pass
+    return out
